@@ -574,9 +574,6 @@ class Configuration(_Configuration):
         # the neighbors it had already seen behind, and every later reload was then refused
         self._cleanup()
 
-        # clearing the current configuration to be able to re-parse it
-        self._clear()
-
         if self._text:
             if not self.parser.set_text(fname):
                 return False
@@ -588,9 +585,20 @@ class Configuration(_Configuration):
             if not self.parser.set_file(target):
                 return False
 
+        # clearing the current configuration to be able to re-parse it
+        # (only now: a file which can not be read must not cost us the running configuration)
+        self._clear()
+
         self.process.add_api()
 
-        if self.parse_section('root') is not True:
+        try:
+            parsed = self.parse_section('root')
+        except Exception:
+            # a parser which raises must not cost us the running configuration either
+            self._rollback_reload()
+            raise
+
+        if parsed is not True:
             self._rollback_reload()
             line_str = ' '.join(self.parser.line)
             return self.error.set(
